@@ -2,6 +2,8 @@
 //! implementation in /repo on generated cases and writes line-aligned `<stream>.cases` /
 //! `<stream>.impl` files plus `<stream>.stats.json`.  `kvh replay <stream> <case>` runs one case.
 mod s_date;
+mod s_headers;
+mod s_router;
 mod util;
 
 pub struct Ctx {
@@ -18,6 +20,8 @@ fn main() {
         let r = match a[2].as_str() {
             "date" => s_date::run_date(&a[3]),
             "datecache" => s_date::run_cache(&a[3]),
+            "router" => s_router::run(&a[3]),
+            "headers" => s_headers::run(&a[3]),
             s => panic!("unknown stream {s}"),
         };
         println!("{r}");
@@ -33,6 +37,8 @@ fn main() {
     match a[1].as_str() {
         "date" => s_date::gen_date(&ctx),
         "datecache" => s_date::gen_cache(&ctx),
+        "router" => s_router::gen(&ctx),
+        "headers" => s_headers::gen(&ctx),
         s => panic!("unknown stream {s}"),
     }
 }
